@@ -108,6 +108,8 @@ static void small_images(const vg::EdgeList &el, const std::vector<double> &w, d
       if (order_mode == 2 && m <= 5) { while (std::next_permutation(o.begin(), o.end())) apply(o, "edge-order:perm"); }
       else { std::vector<int> r(o.rbegin(), o.rend()); apply(r, "edge-order:reverse"); for (int k = 1; k < m; ++k) { std::vector<int> t(m); for (int i = 0; i < m; ++i) t[i] = (i + k) % m; apply(t, "edge-order:rotate" + std::to_string(k)); }
              if (order_mode == 2) for (int i = 0; i < m; ++i) for (int j = i + 1; j < m; ++j) { std::vector<int> t = o; std::swap(t[i], t[j]); apply(t, "edge-order:swap"); } } }
+    // orientation in which the undirected edges are handed to add_edge
+    for (int om : {1, 2}) { vg::EdgeList g = el; vg::orient(g, om); emit(mk(g, w, om == 1 ? "orient:all-reversed" : "orient:alternate", base)); }
     // isolated vertex, pendant paths, bridge to a new triangle
     { vg::EdgeList g = el; g.n++; emit(mk(g, w, "add-isolated-vertex", base)); }
     for (int v = 0; v < n; ++v) {
@@ -208,7 +210,7 @@ int main(int argc, char **argv) {
             auto cyc = vg::all_simple_cycles(el);
             uint64_t nw = vg::num_weightings(alpha, el.m());
             std::vector<double> w;
-            for (uint64_t s = start_sub; s < nw; ++s) {
+            for (uint64_t s = start_sub; s < nw; ++s) { if (R.expired()) break;
                 vg::weighting(alpha, el.m(), s, w);
                 R.sh->crumbs[R.worker_id].sub.store(s);
                 double base = vg::reference_mcb<double>(cyc, w, dim).total;
@@ -240,6 +242,7 @@ int main(int argc, char **argv) {
             Image im; im.el.n = base.n; for (auto &e : base.e) { int a = p[e.first], b = p[e.second]; im.el.e.push_back({std::min(a, b), std::max(a, b)}); }
             im.w = w; im.tag = std::string("family=") + L.fam + ",weights=" + L.pat + "#" + std::to_string(L.widx) + ",renumber=" + ren_name(L.ren) + ",edge-order=" + (L.ord == 0 ? "identity" : L.ord == 1 ? "reverse" : "rotate");
             int m = base.m();
+            vg::orient(im.el, (int) ((L.ren + L.ord) % 3));     // orientation pattern varies with the image
             if (L.ord) { im.has_order = true; im.order.resize(m); for (int i = 0; i < m; ++i) im.order[i] = L.ord == 1 ? m - 1 - i : (i + m / 3) % m; }
             R.count(C_INPUTS); R.count(C_NONTRIV); R.count(C_IMAGES);
             // expected value: independent Horton reference on the BASE graph when affordable, else the value the first variant reports on the identity image
